@@ -12,7 +12,8 @@
 //!   `g,<kind>,<id>`                              Ruleset::get
 //! kind: `o` override, `c` content, `r` room, `s` sender, `u` underride, `x` a custom RuleKind
 //! (not for `i`). The actions tag of a rule is the number of its actions.
-//! step  = `<outcome>|<lists of the kinds that changed in this step, `;`-separated>`
+//! step  = `<outcome>|<lists of the kinds that changed in this step, `;`-separated>`; an entry
+//!         longer than 160 bytes is replaced by `#<FNV-1a-64 of it, 16 hex digits>`
 //! outcome = `ok` | `err:protected|invalid|unknown|order|other` | `got:none` | `got:<e><d>~<tag>`
 //! state = `o=<rules>;c=<rules>;r=<rules>;s=<rules>;u=<rules>`, rules = `,`-joined `<id>~<e><d>~<tag>`
 //! (e, d ∈ {0,1}: enabled, default). Error kinds are grouped into the classes the property talks
@@ -230,12 +231,26 @@ fn fmt_changed(before: &Snap, after: &Snap) -> String {
                 (x.id.as_str(), x.enabled, x.default, x.tag) == (y.id.as_str(), y.enabled, y.default, y.tag)
             })
     };
-    KINDS
+    let full = KINDS
         .iter()
         .filter(|k| !same(&before[k.idx()], &after[k.idx()]))
         .map(|k| fmt_kind(*k, &after[k.idx()]))
         .collect::<Vec<_>>()
-        .join(";")
+        .join(";");
+    compact(full)
+}
+
+/// Long per-step entries (the server-default override list has twelve long ids) are replaced by
+/// `#` + their FNV-1a-64 hash, on both sides; the final state is always printed in full.
+fn compact(s: String) -> String {
+    if s.len() <= 160 {
+        return s;
+    }
+    let mut h: u64 = 0xcbf2_9ce4_8422_2325;
+    for b in s.bytes() {
+        h = (h ^ b as u64).wrapping_mul(0x0000_0100_0000_01b3);
+    }
+    format!("#{h:016x}")
 }
 
 fn start_state(name: &str) -> Option<Ruleset> {
@@ -744,6 +759,12 @@ fn gen(rng: &mut Rng, n: usize, tier: &str) -> Vec<Req> {
     two.extend(alphabet_small("c", &["a", "b"]));
     let lit: Vec<String> = alphabet_small("o", &["a", "b"]);
     let lit3: Vec<String> = alphabet_small("o", &["a", "b", "c"]);
+    // 20 operations: insert {a,b} x after {none,a,b} x before {none,a,b}, remove a, remove b
+    let lit4: Vec<String> = lit
+        .iter()
+        .filter(|t| !t.contains(&stok(MISSING)) && !t.starts_with("e,"))
+        .cloned()
+        .collect();
     for start in ["empty", "default"] {
         // every op of the full alphabet in every reachable state of one kind
         let d1 = if thorough { usize::MAX } else { 3 };
@@ -755,11 +776,10 @@ fn gen(rng: &mut Rng, n: usize, tier: &str) -> Vec<Req> {
         }
         // literal enumeration of whole sequences (no state deduplication)
         literal(start, &lit, 2, &format!("lit2.{start}"), &mut out);
-        if thorough {
-            literal(start, &lit, 4, &format!("lit4.{start}"), &mut out);
-            literal(start, &lit3, 3, &format!("lit3.{start}"), &mut out);
-        } else {
-            literal(start, &lit, 3, &format!("lit3.{start}"), &mut out);
+        literal(start, &lit, 3, &format!("lit3.{start}"), &mut out);
+        if thorough && start == "empty" {
+            literal(start, &lit4, 4, &format!("lit4.{start}"), &mut out);
+            literal(start, &lit3, 3, &format!("lit3x.{start}"), &mut out);
         }
     }
     random_seqs(rng, n, &mut out);
